@@ -143,7 +143,8 @@ theorem tame_finishApi (p : Pool) (a o) : Tame p (p.finishApi a o) := tame_modAp
 theorem tame_flushAfter2 (p : Pool) (a o) : Tame p (p.flushAfter2 a o) := by
   unfold flushAfter2
   split
-  · refine Tame.trans ?_ (tame_finishApi _ a _)
+  · simp only
+    refine Tame.trans ?_ (tame_finishApi _ a _)
     exact tame_of_eq _ _ rfl rfl
   · exact tame_finishApi p a _
 
@@ -155,9 +156,11 @@ theorem tame_flushAfter1 (p : Pool) (a re o) : Tame p (p.flushAfter1 a re o) := 
     split
     · refine Tame.trans ?_ (tame_flushAfter2 _ a _)
       refine Tame.trans ?_ (tame_gatherStart _ _ _ _ _)
+      refine Tame.trans ?_ (tame_modApi _ a _)
       exact tame_of_eq _ _ rfl rfl
     · refine Tame.trans ?_ (tame_modApi _ a _)
       refine Tame.trans ?_ (tame_gatherStart _ _ _ _ _)
+      refine Tame.trans ?_ (tame_modApi _ a _)
       exact tame_of_eq _ _ rfl rfl
 
 theorem tame_flushStage1 (p : Pool) (a re) : Tame p (p.flushStage1 a re) := by
@@ -180,12 +183,12 @@ theorem tame_gacAfter2 (p : Pool) (a o) : Tame p (p.gacAfter2 a o) := by
     exact tame_of_eq _ _ rfl rfl
   · exact tame_finishApi p a _
 
-theorem tame_gacAfter1 (p : Pool) (a re o) : Tame p (p.gacAfter1 a re o) := by
+theorem tame_gacAfter1 (p : Pool) (a re g) : Tame p (p.gacAfter1 a re g) := by
   unfold gacAfter1
+  simp only
   split
   · exact tame_finishApi p a _
-  · simp only
-    split
+  · split
     · refine Tame.trans ?_ (tame_gacAfter2 _ a _)
       refine Tame.trans ?_ (tame_gatherStart _ _ _ _ _)
       exact tame_of_eq _ _ rfl rfl
@@ -241,85 +244,31 @@ theorem tame_doGate (p : Pool) (t o) : Tame p (p.doGate t o).1 := by
     exact tame_modTask p t _ (fun _ => rfl) (fun _ => Or.inl rfl)
   · exact Tame.refl p
 
-end Pool
+theorem tame_setOrders (p : Pool) (orders) : Tame p ({ p with orders := orders } : Pool) := tame_of_eq _ _ rfl rfl
 
-/-! ### all histories -/
-
-def Op.isSetSize : Op → Bool
+def _root_.Taskpool.Op.isSetSize : Op → Bool
   | .setSize _ => true
   | _ => false
 
-theorem good_step {cap : Nat} (w : World) (orders : List (List Nat)) (op : Op) (hn : op.isSetSize = false)
-    (hg : Good cap w.pool) : Good cap (w.step orders op).1.pool := by
-  have h0 : Tame w.pool ({ w.pool with orders := orders } : Pool) := tame_of_eq _ _ rfl rfl
-  have hg0 := h0.good hg
+/-- every external operation other than an assignment to `pool_size` is tame -/
+theorem tame_applyOp (p : Pool) (op : Op) (hn : op.isSetSize = false) : Tame p (p.applyOp op).1 := by
   cases op with
-  | apply num group sp => exact (Pool.tame_doApply _ num group sp).good hg0
-  | map stars items nc group sp => exact (Pool.tame_doMap _ stars items nc group sp).good hg0
-  | start num => exact (Pool.tame_doStart _ num).good hg0
-  | stop n => exact (Pool.tame_doStop _ n).good hg0
-  | stopAll => exact (Pool.tame_doStop _ _).good hg0
-  | cancel ids => exact (Pool.tame_doCancel _ ids).good hg0
-  | cancelGroup g => exact (Pool.tame_doCancelGroup _ g).good hg0
-  | cancelAll => exact (Pool.tame_doCancelAll _).good hg0
-  | lock =>
-    refine Tame.good ?_ hg0
-    exact tame_of_eq _ _ rfl rfl
-  | unlock =>
-    refine Tame.good ?_ hg0
-    exact tame_of_eq _ _ rfl rfl
+  | apply num group sp => exact tame_doApply _ num group sp
+  | map stars items nc group sp => exact tame_doMap _ stars items nc group sp
+  | start num => exact tame_doStart _ num
+  | stop n => exact tame_doStop _ n
+  | stopAll => exact tame_doStop _ _
+  | cancel ids => exact tame_doCancel _ ids
+  | cancelGroup g => exact tame_doCancelGroup _ g
+  | cancelAll => exact tame_doCancelAll _
+  | lock => exact tame_of_eq _ _ rfl rfl
+  | unlock => exact tame_of_eq _ _ rfl rfl
   | setSize v => simp [Op.isSetSize] at hn
-  | flush re => exact (Pool.tame_addApi _ _).good hg0
-  | gac re => exact (Pool.tame_addApi _ _).good hg0
-  | untilClosed => exact (Pool.tame_addApi _ _).good hg0
-  | gate t o => exact (Pool.tame_doGate _ t o).good hg0
-  | run k =>
-    simp only [World.step]
-    split
-    · exact hg
-    · exact Pool.good_runRef _ _ hg0
+  | getIds names => exact Tame.refl _
+  | flush re => exact tame_addApi _ _
+  | gac re => exact tame_addApi _ _
+  | untilClosed => exact tame_addApi _ _
+  | gate t o => exact tame_doGate _ t o
 
-/-- a history: operations together with the cancel orders the implementation exhibited -/
-abbrev History := List (List (List Nat) × Op)
-
-def World.next (w : World) (x : List (List Nat) × Op) : World := ((w.step x.1 x.2).1).drain
-
-def World.run (w : World) (h : History) : World := h.foldl World.next w
-
-theorem good_run {cap : Nat} (w : World) (h : History) (hn : ∀ x ∈ h, x.2.isSetSize = false)
-    (hg : Good cap w.pool) : Good cap (w.run h).pool := by
-  induction h generalizing w with
-  | nil => exact hg
-  | cons x xs ih =>
-    simp only [World.run, List.foldl_cons]
-    apply ih
-    · exact fun y hy => hn y (by simp [hy])
-    · have := good_step w x.1 x.2 (hn x (by simp)) hg
-      exact (tame_of_eq _ _ rfl rfl : Tame (w.step x.1 x.2).1.pool (World.next w x).pool).good this
-
-theorem good_init (n : Nat) (simple : Option SpawnSpec) : Good n (World.init (.fin n) simple).pool :=
-  ⟨⟨n, rfl, by simp [World.init, Pool.init, heldL, grantsL]⟩, fun i tk h _ => by simp [World.init, Pool.init] at h⟩
-
-/-- the number of workers that have begun and not finished -/
-def Pool.live (p : Pool) : Nat := p.tasks.countP (fun t => t.phase == .inWorker)
-
-theorem live_le_held (p : Pool) (hp : PhaseOK p) : p.live ≤ heldL p.tasks := by
-  unfold Pool.live heldL
-  apply List.countP_mono_left
-  intro tk hmem hph
-  obtain ⟨i, hi, rfl⟩ := List.getElem_of_mem hmem
-  have := hp i p.tasks[i] (by simp [hi]) (by simp [NYR]; simp at hph; simp [hph])
-  simp [this]
-
-/-- **C01 (first clause).** For every pool size `n`, both pool classes, every history without an assignment to
-`pool_size` — any interleaving of requests, completions, failures, cancellations, flushes and closes, placed between
-any two handles or inside any user code, with handles run in *any* order — at no instant do more than `n` workers run. -/
-theorem C01_live_le_size (n : Nat) (simple : Option SpawnSpec) (h : History)
-    (hn : ∀ x ∈ h, x.2.isSetSize = false) :
-    ((World.init (.fin n) simple).run h).pool.live ≤ n := by
-  have hg := good_run (World.init (.fin n) simple) h hn (good_init n simple)
-  obtain ⟨v, _, hs⟩ := hg.slot
-  have := live_le_held _ hg.phase
-  omega
-
+end Pool
 end Taskpool
